@@ -542,7 +542,7 @@ func vC12Mutate(r *vRand, doc interface{}) interface{} {
 	del := r.chance(1, 3)
 	var repl interface{}
 	if !del {
-		repl = vC12Wrong[r.intn(len(vC12Wrong))]
+		repl = vC12Normalize(vC12Wrong[r.intn(len(vC12Wrong))]) // a private copy: later mutations must not alias
 	}
 	var apply func(v interface{}, p []interface{}) interface{}
 	apply = func(v interface{}, p []interface{}) interface{} {
@@ -634,7 +634,7 @@ func vC12Gen(e *vEnv, r *vRand) []vCase {
 		}
 		return fmt.Sprintf(`{"id":"join1","type":"room","room":{"roomid":%q,"properties":{"a":1}}}`, rm)
 	}
-	n := e.scale(420, 5000)
+	n := e.scale(480, 4000)
 	var cases []vCase
 	for i := 0; i < n; i++ {
 		rr := r.fork()
@@ -669,6 +669,9 @@ func vC12Gen(e *vEnv, r *vRand) []vCase {
 			ops = append(ops, joined[0], vC12PeerOp("peer", `{"id":"@HID1@","type":"error","error":{"code":"invalid_token","message":"no"}}`))
 		}
 		k := 1 + rr.intn(3)
+		if stage >= 6 && stage < 13 {
+			k += 1 + rr.intn(3) // joined: the stage with the most code behind it
+		}
 		slow := 0
 		for j := 0; j < k; j++ {
 			switch x := rr.intn(100); {
